@@ -530,7 +530,10 @@ func wrapMJTextContent(content string) string {
 			out.WriteString(cdataEnd)
 		}
 
-		out.WriteString(closeNeedle)
+		// keep the white space the end tag was written with ("</mj-text\n>"): dropping a line break here
+		// would move every later line of the pre-processed source, and with it the reported line numbers
+		out.WriteString(closeNeedle[:len(closeNeedle)-1])
+		out.Write(b[closeIdx+len(closeNeedle)-1 : closeEnd])
 
 		pos = closeEnd
 	}
